@@ -240,6 +240,33 @@ Theorem c18_no_prior_runs : forall x c ins changed outs,
 Proof. exact no_prior_runs. Qed.
 Print Assumptions c18_no_prior_runs.
 
+(* the null-build clause FAILS for commands that have a phony alias (whose name is not a file) among their
+   explicit / implicit inputs: the alias is never valid, forces its change, delivers the `missing' record *)
+Theorem c18_phony_alias_never_valid : forall x c prior ins,
+  x_cancelled x = false -> c_phony c = true ->
+  decide x c prior ins [missing_info] = DPhony true /\
+  produced c [missing_info] (decide x c prior ins [missing_info]) = Some (command_result c [missing_info]) /\
+  command_valid c (command_result c [missing_info]) [missing_info] = Some false.
+Proof. exact phony_alias_never_valid. Qed.
+Print Assumptions c18_phony_alias_never_valid.
+
+Theorem c18_phony_alias_dependent_runs : forall x c prior ins outs k h,
+  x_cancelled x = false -> c_phony c = false -> x_simulate x = false ->
+  existsb is_bad (requested ins) = false ->
+  In (k, NSuccessfulCommand h [missing_info]) ins -> is_order_only k = false ->
+  decide x c prior ins outs = DRun.
+Proof. exact phony_alias_dependent_runs. Qed.
+Print Assumptions c18_phony_alias_dependent_runs.
+
+Theorem c18_phony_alias_dependent_reruns_refuted :
+  exists x c ins outs,
+    x_cancelled x = false /\ x_simulate x = false /\ c_phony c = false /\ c_has_deps c = false /\
+    forallb (fun f => negb (is_missing f)) outs = true /\
+    existsb is_bad (requested ins) = false /\
+    decide x c (Some (command_result c outs)) ins outs = DRun.
+Proof. exact phony_alias_dependent_reruns_refuted. Qed.
+Print Assumptions c18_phony_alias_dependent_reruns_refuted.
+
 (* ---- memory safety of the validity check ---- *)
 
 Theorem c18_command_valid_defined : forall c v outs,
